@@ -21,6 +21,7 @@ import (
 	epb "github.com/google/gce-tcb-verifier/proto/endorsement"
 	"github.com/google/gce-tcb-verifier/rotate"
 	"github.com/google/gce-tcb-verifier/verify"
+	spb "github.com/google/go-sev-guest/proto/sevsnp"
 	"google.golang.org/protobuf/proto"
 	fmpb "google.golang.org/protobuf/types/known/fieldmaskpb"
 
@@ -301,13 +302,23 @@ func run(c *core.Ctx) {
 		dir, _ := os.MkdirTemp("", "verif-c03-")
 		a := authority.New(p[0], p[1], dir)
 		a.LongLived = (hi/len(pairs))%2 == 1 // every other pass over the assemblies keeps one CA value alive across commands
-		h := &hist{c: c, idx: hi, gname: fmt.Sprintf("history#%d %s long-lived-ca=%v", hi, a.Name(), a.LongLived), a: a, vcs: doubles.NewMemVCS(nil), vcek: map[int64][]byte{}}
+		// on the assembly whose state lives where the shipped nonprod command line keeps it, the reload-per-command passes
+		// run every command through cmd.MakeApp (flags, composition, localnonvcs writing real files)
+		viaCLI := a.CLIable() && !a.LongLived
+		h := &hist{c: c, idx: hi, gname: fmt.Sprintf("history#%d %s long-lived-ca=%v cli=%v", hi, a.Name(), a.LongLived, viaCLI), a: a, vcs: doubles.NewMemVCS(nil), vcek: map[int64][]byte{}}
 		c.Begin(hi, h.gname, "bootstrap/rotate/endorse", nil)
 		bc := authority.DefaultBootstrap(t0)
 		if r.IntN(2) == 0 {
 			bc.RootKeySerial, bc.SigningKeySerial = big.NewInt(int64(1+r.IntN(1000))), big.NewInt(int64(2000+r.IntN(1000)))
 		}
-		if err := a.Bootstrap(&doubles.FCtl{}, authority.Opts{}, bc); err != nil {
+		var berr error
+		if viaCLI {
+			berr = a.CLI("bootstrap", "--timestamp", t0.Format(time.RFC3339), "--root_key_cn", bc.RootKeyCommonName, "--signing_key_cn", bc.SigningKeyCommonName,
+				"--root_key_serial", bc.RootKeySerial.String(), "--initial_signing_key_serial", bc.SigningKeySerial.String())
+		} else {
+			berr = a.Bootstrap(&doubles.FCtl{}, authority.Opts{}, bc)
+		}
+		if err := berr; err != nil {
 			h.viol("bootstrap-failed", "%v", err)
 			os.RemoveAll(dir)
 			c.End(hi)
@@ -340,7 +351,19 @@ func run(c *core.Ctx) {
 					skc.SigningKeySerial, skc.SigningKeyCommonName = new(big.Int).Set(lastSerial), lastCN
 					ropts.Overwrite = true
 				}
-				_, err := a.Rotate(&doubles.FCtl{}, ropts, skc)
+				var err error
+				if viaCLI {
+					args := []string{"rotate", "--timestamp", now.Format(time.RFC3339), "--signing_key_cn", skc.SigningKeyCommonName}
+					if skc.SigningKeySerial != nil {
+						args = append(args, "--rotated_key_serial_override", skc.SigningKeySerial.String())
+					}
+					if ropts.Overwrite {
+						args = append(args, "--overwrite")
+					}
+					err = a.CLI(args...)
+				} else {
+					_, err = a.Rotate(&doubles.FCtl{}, ropts, skc)
+				}
 				if st := a.Observe(); st.PrimaryCert != nil {
 					lastSerial, _ = new(big.Int).SetString(st.PrimaryCert.Subject.SerialNumber, 10)
 					lastCN = st.PrimaryCert.Subject.CommonName
@@ -373,7 +396,7 @@ func run(c *core.Ctx) {
 				len(ec.SvsmSnpMeasurement) > 0, snapshot, ec.Timestamp.After(endreq.ReleaseChange))
 			ef := &doubles.FCtl{}
 			interleave := 0
-			if step > 1 && r.IntN(5) == 0 {
+			if step > 1 && !viaCLI && r.IntN(5) == 0 {
 				// a rotation lands in the middle of this endorse run, right before its k-th call to CA / signer / VCS
 				interleave = 1 + r.IntN(8)
 				now = now.Add(24 * time.Hour)
@@ -385,7 +408,13 @@ func run(c *core.Ctx) {
 					}
 				}
 			}
-			err := a.Endorse(ef, authority.Opts{}, ec)
+			var err error
+			if viaCLI {
+				err = h.endorseCLI(ec, step)
+				c.Count("endorse-runs-through-the-command-line", 1)
+			} else {
+				err = a.Endorse(ef, authority.Opts{}, ec)
+			}
 			c.Eval(1)
 			cmds = append(cmds, fmt.Sprintf("endorse(%s) -> %v", shape, err))
 			if err != nil {
@@ -409,6 +438,10 @@ func run(c *core.Ctx) {
 				path = "snap/" + ec.ImageName + ".signed"
 			}
 			raw, ok := h.vcs.Head[path]
+			if viaCLI {
+				b, rerr := os.ReadFile(filepath.Join(a.OutRoot(), path))
+				raw, ok = b, rerr == nil
+			}
 			if !ok {
 				h.viol("endorsement-file-missing", "step %d: %s not in the committed head (have %d files)", step, path, len(h.vcs.Head))
 				continue
@@ -427,6 +460,52 @@ func run(c *core.Ctx) {
 	}
 	c.Count("endorsements-issued-and-checked", issuedTotal)
 	c.Floor("issued-some-endorsements", issuedTotal > 0)
+}
+
+// endorseCLI translates the request into the flags of the endorse command and runs it through cmd.MakeApp.
+func (h *hist) endorseCLI(ec *endorse.Context, step int) error {
+	a := h.a
+	img := filepath.Join(a.Dir, ec.ImageName)
+	if err := os.WriteFile(img, ec.Image, 0o644); err != nil {
+		return err
+	}
+	args := []string{"endorse", "--uefi", img, "--out_root", a.OutRoot(), "--out_dir", ec.OutDir, "--candidate_name", ec.CandidateName, "--timestamp", ec.Timestamp.UTC().Format(time.RFC3339Nano)}
+	if ec.ClSpec != 0 {
+		args = append(args, "--clspec", fmt.Sprint(ec.ClSpec))
+	}
+	if len(ec.Commit) != 0 {
+		args = append(args, "--commit", hex.EncodeToString(ec.Commit))
+	}
+	if ec.SnapshotDir != "" {
+		args = append(args, "--snapshot_dir", ec.SnapshotDir)
+	}
+	if ec.SevSnp != nil {
+		args = append(args, "--add_snp", "--snp_launch_vmsas", fmt.Sprint(ec.SevSnp.LaunchVmsas))
+		if ec.SevSnp.Product == spb.SevProduct_SEV_PRODUCT_GENOA {
+			args = append(args, "--snp_product", "Genoa")
+		}
+		if ec.SevSnp.FamilyID != "" {
+			args = append(args, "--snp_family_id", ec.SevSnp.FamilyID)
+		}
+		if ec.SevSnp.ImageID != "" {
+			args = append(args, "--snp_image_id", ec.SevSnp.ImageID)
+		}
+		if len(ec.SvsmSnpMeasurement) > 0 {
+			mp := filepath.Join(a.Dir, fmt.Sprintf("svsm-%d.txt", step))
+			os.WriteFile(mp, []byte(hex.EncodeToString(ec.SvsmSnpMeasurement)+"\n"), 0o644)
+			args = append(args, "--svsm_snp_measurement_path", mp)
+		}
+	}
+	if ec.Tdx != nil {
+		args = append(args, "--add_tdx")
+		if len(ec.Tdx.MachineShapes) > 0 {
+			args = append(args, "--tdx_machine_shapes", strings.Join(ec.Tdx.MachineShapes, ","))
+		}
+		if ec.Tdx.IncludeEarlyAccept {
+			args = append(args, "--tdx_include_early_accept")
+		}
+	}
+	return a.CLI(args...)
 }
 
 func vm(ec *endorse.Context) uint32 {
